@@ -84,6 +84,26 @@ def a1(r: int, c: int, abs_=False) -> str:
     return f"{name}{r + 1}"
 
 
+def parse_a1(ref: str):
+    ref = ref.replace("$", "")
+    i = 0
+    col = 0
+    while i < len(ref) and ref[i].isalpha():
+        col = col * 26 + (ord(ref[i].upper()) - 64)
+        i += 1
+    return int(ref[i:]) - 1, col - 1
+
+
+def parse_a1_range(ref: str):
+    if ":" in ref:
+        a, b = ref.split(":")
+    else:
+        a = b = ref
+    r0, c0 = parse_a1(a)
+    r1, c1 = parse_a1(b)
+    return (r0, c0, r1, c1)
+
+
 def a1_range(r0, c0, r1, c1) -> str:
     if (r0, c0) == (r1, c1):
         return a1(r0, c0)
@@ -144,6 +164,10 @@ class Sim:
         p[name] = p.get(name, 0) + n
 
     def violation(self, check_id: str, key, detail: str, prop: str | None = None):
+        if isinstance(key, dict) and key.get("legacy_merge_records_moved"):
+            # one identity for one root cause (see known_findings.json)
+            detail = f"[{check_id} {json.dumps(key, sort_keys=True)}] {detail}"
+            check_id, key = "C12.legacy_merge_records_not_moved", {"storage": "formula-owner merge records of a shipped document"}
         v = Violation(prop or check_id.split(".")[0], check_id, key, detail)
         v.step = self.step_no
         raise v
@@ -284,7 +308,7 @@ class Sim:
                     self.violation(f"{P}.{sfx or 'positions'}", {"what": "position", "after": after},
                                    f"{where}: cell at [{r},{c}] reports ({cell.row},{cell.col})")
                 if merges_on and (r, c) in placeholder:
-                    self.check_placeholder(cell, placeholder[(r, c)], where, r, c, after, reopened)
+                    self.check_placeholder(cell, placeholder[(r, c)], where, r, c, after, reopened, tm)
                     continue
                 if "merges" in self.aspects and tm.merge_unspecified:
                     # self-consistency only: what the rectangle should become is not specified
@@ -298,46 +322,86 @@ class Sim:
                     ok = cls == want and V.typed_eq(exp, cell.value)
                 if not ok:
                     kind = "class" if cls != want else "value"
-                    self.violation(f"{P}.{sfx or 'values'}", {"what": kind, "want": want, "got": cls, "after": after},
+                    vkey = {"what": kind, "want": want, "got": cls, "after": after}
+                    if "merges" in self.aspects and (cls == "MergedCell" or want == "MergedCell"):
+                        vkey = self.mkey(tm, vkey, reopened)
+                    self.violation(f"{P}.{sfx or 'values'}", vkey,
                                    f"{where} [{r},{c}]: library {cls}({V.short(cell.value)}), model {want}({V.short(exp.value if isinstance(exp, Opaque) else exp)})")
                 if merges_on:
-                    self.check_anchor(cell, anchors.get((r, c)), where, r, c, after, reopened)
+                    self.check_anchor(cell, anchors.get((r, c)), where, r, c, after, reopened, tm)
         if merges_on:
             want = sorted(a1_range(*m) for m in tm.merges)
             got = table.merge_ranges
             if got != want:
-                self.violation(f"C12.{'ranges_reloaded' if reopened else 'ranges'}", {"after": after},
+                self.violation(f"C12.{'ranges_reloaded' if reopened else 'ranges'}", self.mkey(tm, {"after": after}, reopened),
                                f"{where}: merge_ranges {got}, model {want}")
 
-    def check_placeholder(self, cell, m, where, r, c, after, reopened) -> None:
+    def check_placeholder(self, cell, m, where, r, c, after, reopened, tm=None) -> None:
         cls = type(cell).__name__
         sfx = "_reloaded" if reopened else ""
         if cls != "MergedCell":
-            self.violation(f"C12.placeholders{sfx}", {"what": "class", "after": after},
+            self.violation(f"C12.placeholders{sfx}", self.mkey(tm, {"what": "class", "after": after}, reopened),
                            f"{where} [{r},{c}]: inside merge {a1_range(*m)} but is {cls}({V.short(cell.value)})")
         if cell.value is not None:
-            self.violation(f"C12.placeholders{sfx}", {"what": "value", "after": after},
+            self.violation(f"C12.placeholders{sfx}", self.mkey(tm, {"what": "value", "after": after}, reopened),
                            f"{where} [{r},{c}]: placeholder has value {V.short(cell.value)}")
         rect = getattr(cell, "rect", None)
         rng = getattr(cell, "merge_range", None)
         if rect is None or tuple(rect) != tuple(m) or rng != a1_range(*m):
-            self.violation(f"C12.placeholders{sfx}", {"what": "rect", "after": after},
+            self.violation(f"C12.placeholders{sfx}", self.mkey(tm, {"what": "rect", "after": after}, reopened),
                            f"{where} [{r},{c}]: placeholder reports rect {rect} / {rng}, expected {m} / {a1_range(*m)}")
         if getattr(cell, "is_merged", None):
-            self.violation(f"C12.placeholders{sfx}", {"what": "is_merged", "after": after},
+            self.violation(f"C12.placeholders{sfx}", self.mkey(tm, {"what": "is_merged", "after": after}, reopened),
                            f"{where} [{r},{c}]: placeholder reports is_merged=True")
 
-    def check_anchor(self, cell, m, where, r, c, after, reopened) -> None:
+    def check_anchor(self, cell, m, where, r, c, after, reopened, tm=None) -> None:
         sfx = "_reloaded" if reopened else ""
         if m is not None:
             size = (m[2] - m[0] + 1, m[3] - m[1] + 1)
             if not cell.is_merged or tuple(cell.size) != size:
-                self.violation(f"C12.anchor{sfx}", {"after": after},
+                self.violation(f"C12.anchor{sfx}", self.mkey(tm, {"after": after}, reopened),
                                f"{where} [{r},{c}]: anchor of {a1_range(*m)} reports is_merged={cell.is_merged} size={cell.size}")
         else:
             if cell.is_merged or type(cell).__name__ == "MergedCell" or tuple(cell.size or ()) != (1, 1):
-                self.violation(f"C12.outside_untouched{sfx}", {"after": after},
+                self.violation(f"C12.outside_untouched{sfx}", self.mkey(tm, {"after": after}, reopened),
                                f"{where} [{r},{c}]: not part of any merge but is_merged={cell.is_merged} size={cell.size} class={type(cell).__name__}")
+
+    @staticmethod
+    def mkey(tm, key: dict, reopened: bool = True) -> dict:
+        """Tag merge findings on tables whose merges came from a shipped document and were then
+        moved by a structural edit (their storage in formula-owner records is a known finding)."""
+        if reopened and tm is not None and tm.legacy_merges and tm.struct_edited:
+            key = dict(key)
+            key["legacy_merge_records_moved"] = True
+        return key
+
+    def adopt_merges(self, tm: TableM, table) -> None:
+        """
+        After an insertion inside a rectangle or a deletion cutting one, what the rectangle should
+        become is not specified: adopt what the library now reports (merge_ranges) as the model's
+        rectangles and hold the library to it from here on (anchor, placeholders, outside cells,
+        save/reopen).  Values under new placeholders are gone by definition.
+        """
+        if not (self.real and tm.merge_unspecified):
+            return
+        rects = []
+        for ref in table.merge_ranges:
+            rects.append(parse_a1_range(ref))
+        ok = all(0 <= r0 <= r1 < tm.nrows and 0 <= c0 <= c1 < tm.ncols for r0, c0, r1, c1 in rects)
+        for i, x in enumerate(rects):
+            for y in rects[i + 1 :]:
+                if x[0] <= y[2] and y[0] <= x[2] and x[1] <= y[3] and y[1] <= x[3]:
+                    ok = False
+        if not ok:
+            self.violation("C12.ranges", {"what": "inconsistent_after_cut"}, f"merge_ranges {table.merge_ranges} overlap or leave the {tm.nrows}x{tm.ncols} table")
+        tm.merges = rects
+        for r0, c0, r1, c1 in rects:
+            for r in range(r0, r1 + 1):
+                for c in range(c0, c1 + 1):
+                    if (r, c) != (r0, c0):
+                        tm.rows[r][c] = None
+        tm.merge_unspecified = False
+        self.probe("merge_rect_adopted_after_cut_or_inner_insert")
 
     # ---- building a model from a loaded document ------------------------------------------------------
     def model_from_doc(self, doc, source) -> DocM:
@@ -365,6 +429,8 @@ class Sim:
                             tm.merges.append((r, c, r + cell.size[0] - 1, c + cell.size[1] - 1))
                     rows.append(row)
                 tm.rows = rows
+                if tm.merges and isinstance(source, str) and source.endswith(".numbers") and not source[:-8] in ALL_SLOTS:
+                    tm.legacy_merges = True
                 sm.tables.append(tm)
             m.sheets.append(sm)
         return m
@@ -518,6 +584,8 @@ def op_add_row(sim: Sim, a) -> str:
             table.add_row(n, **kw) if (n != 1 or kw or a.get("explicit")) else table.add_row()
         else:
             table.add_row(n, at, **kw)
+        sim.adopt_merges(tm, table)
+        tm.struct_edited = True
     return "ok"
 
 
@@ -543,6 +611,8 @@ def op_add_col(sim: Sim, a) -> str:
             table.add_column(n, **kw) if (n != 1 or kw or a.get("explicit")) else table.add_column()
         else:
             table.add_column(n, at, **kw)
+        sim.adopt_merges(tm, table)
+        tm.struct_edited = True
     return "ok"
 
 
@@ -567,6 +637,8 @@ def op_del_row(sim: Sim, a) -> str:
             table.delete_row(n) if (n != 1 or a.get("explicit")) else table.delete_row()
         else:
             table.delete_row(n, at)
+        sim.adopt_merges(tm, table)
+        tm.struct_edited = True
     return "ok"
 
 
@@ -591,6 +663,8 @@ def op_del_col(sim: Sim, a) -> str:
             table.delete_column(n) if (n != 1 or a.get("explicit")) else table.delete_column()
         else:
             table.delete_column(n, at)
+        sim.adopt_merges(tm, table)
+        tm.struct_edited = True
     return "ok"
 
 
